@@ -29,6 +29,8 @@ class CidModel(object):
         self.line_delimiter = line_delimiter
         self.sheet = sheet
         self.encoding = encoding
+        self.quote = '"'
+        self.escape = '"'
 
     def names(self):
         return [f["name"] for f in self.fields]
@@ -40,6 +42,9 @@ class CidModel(object):
         rows = [["D", "Format", {"delimited": "Delimited", "fixed": "Fixed", "excel": "Excel", "ods": "ODS"}[self.kind]]]
         if self.kind in ("delimited", "fixed"):
             rows.append(["D", "Encoding", self.encoding])
+        if self.kind == "delimited" and (self.quote != '"' or self.escape != '"'):
+            rows.append(["D", "Quote character", self.quote])
+            rows.append(["D", "Escape character", self.escape])
         if self.header:
             rows.append(["D", "Header", str(self.header)])
         if self.fmt["ths"]:
@@ -64,15 +69,18 @@ class CidModel(object):
     def to_json(self):
         return {"kind": self.kind, "header": self.header, "fields": self.fields, "checks": self.checks,
                 "dec": self.fmt["dec"], "ths": self.fmt["ths"], "allowed": self.allowed_text,
-                "line_delimiter": self.line_delimiter, "sheet": self.sheet}
+                "line_delimiter": self.line_delimiter, "sheet": self.sheet, "quote": self.quote, "escape": self.escape}
 
     @staticmethod
     def from_json(d):
         from cpverif.models import rangemodel as R
 
         allowed = R.parse_int_range(d["allowed"]) if d.get("allowed") else None
-        return CidModel(d["kind"], d["fields"], d.get("checks", ()), d.get("header", 0), d.get("dec", "."), d.get("ths", ""),
-                        allowed, d.get("allowed"), d.get("line_delimiter"), d.get("sheet"))
+        model = CidModel(d["kind"], d["fields"], d.get("checks", ()), d.get("header", 0), d.get("dec", "."), d.get("ths", ""),
+                         allowed, d.get("allowed"), d.get("line_delimiter"), d.get("sheet"))
+        model.quote = d.get("quote", '"')
+        model.escape = d.get("escape", '"')
+        return model
 
 
 class CheckState(object):
